@@ -88,7 +88,7 @@ def readU32 (d : List UInt8) (pos : Nat) : Except Err (Nat × Nat) :=
   | _ => .error .ioError
 
 /-- `read_length_and_key(fp)` with the static term set `terms`. `fp.read(n)`
-returns what is there (possibly fewer bytes). -/
+returns what is there (possibly fewer bytes); since repo commit bb0349d a short key is an `IOError`. -/
 def readKey (terms : List UInt8 → Bool) (d : List UInt8) (pos : Nat) : Except Err (Key × Nat) :=
   match readU32 d pos with
   | .error e => .error e
@@ -96,7 +96,8 @@ def readKey (terms : List UInt8 → Bool) (d : List UInt8) (pos : Nat) : Except 
     let n := if len = 0 then 4 else len
     let kb := (d.drop p).take n
     let p' := p + kb.length
-    if len = 0 ∧ ¬ terms kb then .ok ({ bytes := kb, implicit := true }, p')
+    if kb.length ≠ n then .error .ioError            -- a key cut short by the end of the stream (repo commit bb0349d)
+    else if len = 0 ∧ ¬ terms kb then .ok ({ bytes := kb, implicit := true }, p')
     else .ok ({ bytes := kb, implicit := false }, p')
 
 /-- `write_length_and_key(fp, value)`; `struct.pack('>I')` rejects lengths ≥ 2^32. -/
